@@ -5,7 +5,7 @@
       allocatable + live + metaTotal + 2 = maxPages
    at every quiescent point is checked on the implementation (conservation oracle, capacity probe,
    Observer stats) after every transaction of long histories. *)
-From VF Require Import Region Freelist Alloc RegionProofs AllocProofs.
+From VF Require Import Region Freelist Alloc RegionProofs AllocProofs TxAllocProofs MetaAllocProofs.
 From VF Require C04.
 
 Theorem C11_alloc_accounting : forall a t n regs cnt a' t',
@@ -42,6 +42,21 @@ Proof.
   destruct (fl_add_region_spec _ reg 2 W Hlo Hc Hd) as (W' & _ & Hav). auto.
 Qed.
 Print Assumptions C11_transfer_accounting.
+
+(* inside every transaction the size of the meta area is the committed size plus exactly the pages moved
+   out of the data area, and an aborted transaction gives all of them back *)
+Theorem C11_meta_total_in_tx : forall a0 p a t, Inv0 a0 -> treach a0 p a t ->
+  metaTotal a = metaTotal a0 + count_pages (moveToMeta t) /\
+  (a_end (meta a) - a_end (data a0) < 2^32 ->
+   metaTotal (rollback a t) = metaTotal a0 /\
+   avail (a_free (meta (rollback a t))) = avail (a_free (meta a0)) /\
+   avail (a_free (data (rollback a t))) = avail (a_free (data a0)) /\
+   a_end (data (rollback a t)) = a_end (data a0)).
+Proof.
+  intros a0 p a t I R. split; [exact (fi_total _ _ _ (treach_inv _ _ _ _ I R))|].
+  intros Hs. pose proof (rollback_exact_full a0 p a t I R Hs) as H. cbv zeta in H. tauto.
+Qed.
+Print Assumptions C11_meta_total_in_tx.
 
 Example C11_ex : data_avail (C04.ex_alloc) = 55.
 Proof. reflexivity. Qed.
